@@ -447,6 +447,23 @@ func vSharedInit() {
 		vSharedOptsV = &ExpandOptions{}
 	})
 }
+var (
+	vSharedWarmOnce  sync.Once
+	vSharedRootV     *Swagger
+	vSharedWarmCache ResolutionCache
+)
+
+func vSharedRootAndCache() (*Swagger, ResolutionCache) {
+	vSharedWarmOnce.Do(func() {
+		vSharedRootV = new(Swagger)
+		_ = json.Unmarshal([]byte(vC17RootDoc), vSharedRootV)
+		vSharedWarmCache = defaultResolutionCache()
+		var s Schema
+		_ = json.Unmarshal([]byte(`{"$ref":"#/definitions/B"}`), &s)
+		_ = ExpandSchema(&s, vSharedRootV, vSharedWarmCache)
+	})
+	return vSharedRootV, vSharedWarmCache
+}
 func vSharedDoc() *Swagger              { vSharedInit(); return vSharedDocV }
 func vSharedCache() ResolutionCache     { vSharedInit(); return vSharedCacheV }
 func vSharedOpts() *ExpandOptions       { vSharedInit(); return vSharedOptsV }
